@@ -250,6 +250,57 @@ func c03parentOf(v ssa.Value) *ssa.Function {
 	return nil
 }
 
+// addrBase: the term of the object an address is taken in. `&x.inner` (an embedded or nested struct held by value)
+// is the struct x.inner itself, so that x.inner.f reads as field(f, field(inner, x)) wherever the address is
+// recomputed (go/ssa has no CSE).
+func (e *c03eng) addrBase(v ssa.Value, d int) *c03term {
+	if fa, ok := v.(*ssa.FieldAddr); ok && d <= 12 {
+		b := e.addrBase(fa.X, d+1)
+		if b == nil {
+			return nil
+		}
+		return &c03term{op: "field", fld: core.FieldOfAddr(fa), args: []*c03term{b}}
+	}
+	return e.termOfD(v, d)
+}
+
+// c03getter: f is a trivial accessor — one block, no calls, returning a term over its parameters (a field of the
+// receiver, possibly through embedded structs). Its call reads as that term.
+func (e *c03eng) getter(f *ssa.Function) *c03term {
+	if t, ok := e.getters[f]; ok {
+		return t
+	}
+	e.getters[f] = nil
+	if f.Blocks == nil || len(f.Blocks) != 1 || f.Signature.Results().Len() != 1 {
+		return nil
+	}
+	if p := core.FuncPkg(f); p == nil || !core.InRepo(p) {
+		return nil
+	}
+	b := f.Blocks[0]
+	for _, in := range b.Instrs {
+		switch y := in.(type) {
+		case *ssa.FieldAddr, *ssa.Field, *ssa.UnOp, *ssa.Return, *ssa.DebugRef:
+		case *ssa.Call:
+			if bi, ok := y.Call.Value.(*ssa.Builtin); !ok || bi.Name() != "len" {
+				return nil
+			}
+		default:
+			return nil
+		}
+	}
+	rt, ok := b.Instrs[len(b.Instrs)-1].(*ssa.Return)
+	if !ok {
+		return nil
+	}
+	t := e.termOf(rt.Results[0])
+	if t == nil || !t.paramRooted() || (t.op != "field" && t.op != "deref" && t.op != "len") {
+		return nil
+	}
+	e.getters[f] = t
+	return t
+}
+
 // termStruct builds a structural term; nil if the value has no structural representation.
 func (e *c03eng) termStruct(v ssa.Value, d int) *c03term {
 	sub := func(x ssa.Value) *c03term { return e.termOfD(x, d+1) }
@@ -280,7 +331,7 @@ func (e *c03eng) termStruct(v ssa.Value, d int) *c03term {
 		case token.MUL:
 			switch a := x.X.(type) {
 			case *ssa.FieldAddr:
-				b := sub(a.X)
+				b := e.addrBase(a.X, d+1)
 				if b == nil {
 					return nil
 				}
@@ -356,6 +407,15 @@ func (e *c03eng) termStruct(v ssa.Value, d int) *c03term {
 			name = c03calleeKey(f)
 			if _, isClosure := cc.Value.(*ssa.MakeClosure); isClosure {
 				return nil
+			}
+			if gt := e.getter(f); gt != nil {
+				var as []*c03term
+				for _, a := range cc.Args {
+					as = append(as, e.addrBase(a, d+1))
+				}
+				if t := gt.subst(as); t != nil {
+					return t
+				}
 			}
 		} else {
 			return nil
@@ -982,6 +1042,7 @@ type c03eng struct {
 	sumF    map[*ssa.Function][]c03clause
 	sumBusy map[*ssa.Function]bool
 	pure    map[*ssa.Function]bool
+	getters map[*ssa.Function]*c03term
 	impls   map[*types.Func][]*ssa.Function
 	wr      map[*ssa.Function]map[*types.Var]bool // transitive field write sets
 	wrBusy  map[*ssa.Function]bool
@@ -991,7 +1052,7 @@ type c03eng struct {
 
 func c03newEng(c *core.Ctx, reach map[*ssa.Function]bool) *c03eng {
 	e := &c03eng{c: c, reach: reach, byKey: map[string]*ssa.Function{}, sumT: map[*ssa.Function][]c03clause{}, sumF: map[*ssa.Function][]c03clause{},
-		sumBusy: map[*ssa.Function]bool{}, pure: map[*ssa.Function]bool{}, impls: map[*types.Func][]*ssa.Function{}, wr: map[*ssa.Function]map[*types.Var]bool{}, wrBusy: map[*ssa.Function]bool{}, callers: map[*ssa.Function][]ssa.CallInstruction{}}
+		sumBusy: map[*ssa.Function]bool{}, pure: map[*ssa.Function]bool{}, getters: map[*ssa.Function]*c03term{}, impls: map[*types.Func][]*ssa.Function{}, wr: map[*ssa.Function]map[*types.Var]bool{}, wrBusy: map[*ssa.Function]bool{}, callers: map[*ssa.Function][]ssa.CallInstruction{}}
 	for f := range c.AllFunctions() {
 		if p := core.FuncPkg(f); p != nil && (core.InRepo(p) || strings.HasPrefix(p.Path(), "github.com/jf-tech/")) && f.Blocks != nil {
 			e.byKey[c03calleeKey(f)] = f
@@ -1422,6 +1483,74 @@ func (e *c03eng) summary(f *ssa.Function) (t, fl []c03clause) {
 		var out []c03clause
 		for _, k := range ks {
 			out = append(out, cur[k])
+		}
+		// a disjunction over the ways: if every way pins the same term to constants (`k == A || k == B || ...`),
+		// the result implies that the term is one of them
+		var wayCls [][]c03clause
+		for _, w := range ways {
+			if w.val == val {
+				wayCls = append(wayCls, e.expand(w.cls, 0))
+			}
+		}
+		if len(wayCls) >= 2 {
+			eqOn := func(cl c03clause) *c03term {
+				var t *c03term
+				for _, a := range cl.atoms {
+					if a.kind != "cmp" || a.op != token.EQL || !a.paramRooted() {
+						return nil
+					}
+					if fl, oth := a.t.memFields(); len(fl) > 0 || len(oth) > 0 {
+						return nil
+					}
+					if t != nil && !c03eq(t, a.t) {
+						return nil
+					}
+					t = a.t
+				}
+				return t
+			}
+			var cands []*c03term
+			for _, cl := range wayCls[0] {
+				if t := eqOn(cl); t != nil {
+					cands = append(cands, t)
+				}
+			}
+			for _, t := range cands {
+				var atoms []c03atom
+				seen := map[int64]bool{}
+				all := true
+				for _, wc := range wayCls {
+					found := false
+					for _, cl := range wc {
+						if tt := eqOn(cl); tt != nil && c03eq(tt, t) {
+							found = true
+							for _, a := range cl.atoms {
+								if !seen[a.k] {
+									seen[a.k] = true
+									atoms = append(atoms, a)
+								}
+							}
+							break
+						}
+					}
+					if !found {
+						all = false
+						break
+					}
+				}
+				if all && len(atoms) > 0 {
+					dup := false
+					dc := c03clause{atoms: atoms}
+					for _, o := range out {
+						if o.String() == dc.String() {
+							dup = true
+						}
+					}
+					if !dup {
+						out = append(out, dc)
+					}
+				}
+			}
 		}
 		return out
 	}
@@ -2145,6 +2274,11 @@ func (e *c03eng) collectValidated(fns []*ssa.Function, rejects func(*ssa.BasicBl
 					continue
 				}
 				out = append(out, c03valid{atom: a, abs: c03abs(a.t), fn: f, ifi: ifi})
+				for _, cl := range e.expand([]c03clause{{atoms: []c03atom{a}}}, 0)[1:] {
+					if len(cl.atoms) == 1 {
+						out = append(out, c03valid{atom: cl.atoms[0], abs: c03abs(cl.atoms[0].t), fn: f, ifi: ifi})
+					}
+				}
 			}
 		}
 	}
